@@ -10,6 +10,9 @@ from ..workers import c16_tables as T
 # ------------------------------------------------------------------------------------------------
 # T1: constants of state.py -> Gen/StateConsts.v
 # ------------------------------------------------------------------------------------------------
+STATE_FIELD_CODE = {"entity_id": 0, "last_changed": 1, "last_updated": 2, "last_reported": 3}
+
+
 def translate_state():
     tree = parse_file("state.py")
     name2id = {s: i for i, s in T.IDENT.items()}
@@ -47,14 +50,11 @@ def translate_state():
             seen_dict = True
             continue
         val = node.value
-        if not (isinstance(val, ast.Attribute) and isinstance(val.value, ast.Name) and val.value.id == "state" and val.attr == tgt.attr):
-            raise TranslateError(f"StateVal.__new__: field {tgt.attr} is not `new_var.X = state.X`")
-        if tgt.attr == "entity_id":
-            fields.append((ident(tgt.attr), True))
-        elif tgt.attr.startswith("last_"):
-            fields.append((ident(tgt.attr), False))
-        else:
-            raise TranslateError(f"StateVal.__new__: unexpected virtual field {tgt.attr}")
+        if not (isinstance(val, ast.Attribute) and isinstance(val.value, ast.Name) and val.value.id == "state"):
+            raise TranslateError(f"StateVal.__new__: field {tgt.attr} is not `new_var.X = state.Y`")
+        if val.attr not in STATE_FIELD_CODE:
+            raise TranslateError(f"StateVal.__new__: field {tgt.attr} reads unknown state.{val.attr}")
+        fields.append((ident(tgt.attr), STATE_FIELD_CODE[val.attr]))
     if not seen_dict:
         raise TranslateError("StateVal.__new__: no __dict__ assignment")
     out["stateval_new_fields"] = fields
@@ -118,8 +118,10 @@ def gen_state_consts():
              "From PV Require Import Common.Util.",
              "(* identifiers allocated by the translator: " + ", ".join(f"{i}={s}" for i, s in sorted(names.items())) + " *)", ""]
     lines.append(f"Definition state_virtual_attrs : list N := {q.lst(q.N(x) for x in c['state_virtual_attrs'])}.")
-    lines.append("Definition stateval_new_fields : list (N * bool) := "
-                 + q.lst(f"({q.N(k)}, {q.boolean(b)})" for k, b in c["stateval_new_fields"]) + ".")
+    lines.append("(* (field set on the StateVal, code of the hass State field it is read from: 0 entity_id, 1 last_changed, "
+                 "2 last_updated, 3 last_reported) *)")
+    lines.append("Definition stateval_new_fields : list (N * N) := "
+                 + q.lst(f"({q.N(k)}, {q.N(b)})" for k, b in c["stateval_new_fields"]) + ".")
     lines.append(f"Definition state_callable_attrs : list N := {q.lst(q.N(x) for x in c['state_callable_attrs'])}.")
     lines.append(f"Definition set_param_value : N := {q.N(c['set_param_value'])}.")
     lines.append(f"Definition set_param_other : list N := {q.lst(q.N(x) for x in c['set_param_other'])}.")
@@ -185,7 +187,7 @@ def _res(r):
 
 
 def _mstate(o):
-    ha = "[" + "; ".join(f"({_ename(h[0])}, ({_n(h[1])}, {_attrs(h[2])}))" for h in o["ha"]) + "]"
+    ha = "[" + "; ".join(f"({_ename(h[0])}, mk_hs {_n(h[1])} {_attrs(h[2])} {_n(h[3][0])} {_n(h[3][1])} {_n(h[3][2])})" for h in o["ha"]) + "]"
     svcs = "[" + "; ".join(_ename(e) for e in o["svcs"]) + "]"
     glob = "[]" if o["gobj"] is None else f"[({T.GLOBAL_OBJ}, {_attrs(o['gobj'])})]"
     slots = "[" + "; ".join(f"({j}, {_pyval(p)})" for j, p in zip(T.SLOTS, o["slots"])) + "]"
@@ -269,13 +271,28 @@ def S(op, loc=None):
     return {"t": "s", "loc": loc or [], "op": op}
 
 
+# names of the identifiers the translator allocates (StateVal helper methods 120.., other strings 150..); the streams
+# only need 120 (as_float) and 125 (is_unknown) to write source text, so a refused translation falls back to this list
+FALLBACK_NAMES = {120: "as_float", 121: "as_int", 122: "as_bool", 123: "as_round", 124: "as_datetime", 125: "is_unknown",
+                  126: "is_unavailable", 127: "has_value"}
+
+
+def translator_names():
+    try:
+        names = dict(translate_state()["__names__"])
+    except TranslateError:
+        return dict(FALLBACK_NAMES)
+    for i, n in FALLBACK_NAMES.items():
+        names.setdefault(i, n)
+    return names
+
+
 def step_src(step):
     """readable form of a step: the generated statement, or the external call"""
     try:
         from ..workers.c16_statevar import ename, gen_core
 
-        names = translate_state()["__names__"]
-        for i, n in names.items():
+        for i, n in translator_names().items():
             T.IDENT.setdefault(i, n)
         if step["t"] == "x":
             x = step["x"]
@@ -289,7 +306,7 @@ def step_src(step):
 
 
 PLAIN_VALUES = sorted(T.POOL)                       # ids of str/int/float/bool/list/dict pool values
-READ_ATTRS = T.ATTRS + [13, 101, 103, 120, 125, 10]
+READ_ATTRS = T.ATTRS + [13, 101, 102, 103, 101, 102, 103, 120, 125, 10]
 STATE_ENTS = [e for e in T.ENTITIES if e[0] not in (T.GLOBAL_OBJ,)]
 
 
@@ -451,6 +468,58 @@ class StateVarStream(Stream):
             return S(["rslot", a_slot()])
         return S(["rslota", a_slot(), rng.choice(READ_ATTRS)])
 
+    def _time_block(self, rng, live, slots_used):
+        """write, later an identical re-write (only last_reported moves), an attribute-only change (last_updated moves,
+        last_changed does not), a value change (all move) - each followed by reads of the virtual time fields"""
+        e = list(rng.choice([(1, 10), (1, 11), (1, 12), (2, 10)]))
+        v = rng.choice(PLAIN_VALUES)
+        a = self._attrs(rng, [20, 21, 22])
+        live.add(tuple(e))
+        j = rng.choice(T.SLOTS)
+        slots_used.add(j)
+
+        def reads():
+            out = []
+            for _ in range(rng.choice([1, 2, 3])):
+                r = rng.random()
+                k = rng.choice([101, 102, 103, 103])
+                if r < 0.35:
+                    out.append(S(["rd", e + [k], None]))
+                elif r < 0.55:
+                    out.append(S(["get", e + [k], None]))
+                elif r < 0.8:
+                    out += [S(["rd", e, j]), S(["rslota", j, k])]
+                else:
+                    out += [S(["get", e, j]), S(["rslot", j])]
+            return out
+
+        blk = [X("set", e, v, a)] + reads()
+        for kind in rng.sample(["same", "same", "attr", "value"], rng.choice([2, 3, 4])):
+            if kind == "same":
+                if rng.random() < 0.5:
+                    blk.append(X("set", e, v, a))
+                elif rng.random() < 0.5:
+                    blk.append(S(["asg", e, ["lit", v]]))                       # script re-assigns the value it already has
+                else:
+                    blk.append(S(["set", e, ["lit", v], None, [], False]))
+            elif kind == "attr":
+                k, x = rng.choice([20, 21, 22]), rng.choice(PLAIN_VALUES)
+                if rng.random() < 0.5:
+                    a = [kv for kv in a if kv[0] != k] + [[k, x]]
+                    blk.append(X("set", e, v, a))
+                else:
+                    blk.append(S(["asg", e + [k], ["lit", x]]))
+                    a = None
+            else:
+                v = rng.choice(PLAIN_VALUES)
+                blk.append(X("set", e, v, a) if (a is not None and rng.random() < 0.5) else S(["asg", e, ["lit", v]]))
+            if a is None:      # attributes no longer known exactly: continue with script-side writes only
+                a = []
+                blk += reads()
+                break
+            blk += reads()
+        return blk
+
     def _case(self, rng):
         live = set()
         slots_used = set()
@@ -463,7 +532,11 @@ class StateVarStream(Stream):
             live.add(e)
         while len(steps) < n:
             r = rng.random()
-            if r < 0.16:
+            if r < 0.05:
+                steps += self._time_block(rng, live, slots_used)
+            elif r < 0.08 and any(s["t"] == "x" and s["x"][0] == "set" for s in steps):
+                steps.append(rng.choice([s for s in steps if s["t"] == "x" and s["x"][0] == "set"]))   # identical re-report
+            elif r < 0.16:
                 e = rng.choice(T.ENTITIES)
                 steps.append(X("set", list(e), self._val(rng), self._attrs(rng, T.ATTRS)))
                 live.add(e)
@@ -488,8 +561,7 @@ class StateVarStream(Stream):
 
     # ---- implementation ------------------------------------------------------------------------
     def run_impl(self, ctx, cases):
-        names = translate_state()["__names__"]
-        idents = {str(i): s for i, s in names.items()}
+        idents = {str(i): s for i, s in translator_names().items()}
         clean = [{k: v for k, v in c.items() if not k.startswith("__")} for c in cases]
         chunks = split_chunks(clean, 12)
         res = run_workers_parallel(ctx, "vh.workers.c16_statevar", [{"cases": c, "idents": idents} for c in chunks], timeout=1500)
@@ -555,6 +627,17 @@ def _fixed_cases():
     for mode in ("func", "live"):
         for legacy in (False, True):
             cases.append({"mode": mode, "legacy": legacy, "gobj": [[10, on], [11, lst]], "steps": routing})
+    # the three time stamps: created / re-reported unchanged / attribute changed / value changed, from outside and from the script
+    def reads():
+        return [S(["rd", e0, 2]), S(["rd", e0 + [101], None]), S(["rd", e0 + [102], None]), S(["rd", e0 + [103], None]),
+                S(["get", e0 + [103], None]), S(["rslota", 2, 103]), S(["rslota", 2, 102]), S(["rslota", 2, 101])]
+    times = ([X("set", e0, on, [[20, one]])] + reads() + [X("set", e0, on, [[20, one]])] + reads()
+             + [S(["asg", e0, ["lit", on]])] + reads() + [X("set", e0, on, [[20, true]])] + reads()
+             + [S(["asg", e0 + [21], ["lit", off]])] + reads() + [X("set", e0, on, [[20, one], [21, off]])] + reads()
+             + [S(["asg", e0, ["lit", off]])] + reads() + [S(["set", e0, None, None, [], False])] + reads()
+             + [X("set", e0, on, [])] + reads() + [S(["asg", e1, ["slot", 2]])] + [S(["rd", e1 + [103], None]), S(["rslota", 2, 103])])
+    for mode in ("func", "live"):
+        cases.append({"mode": mode, "legacy": mode == "live", "gobj": [[10, on]], "steps": times})
     return cases
 
 
@@ -579,8 +662,8 @@ class C16(Prop):
         "str() is idempotent and never None (host hypotheses of C16_refines; Example host_table_ok)",
         "scripts do not mutate list/dict attribute values in place and do not assign attributes on StateVal objects (outside C16's quantifier)",
     ]
-    partial_note = ("datetime values of last_changed/last_updated/last_reported are only checked to equal hass's at capture time; "
-                    "entity names are lower case; state.persist and the context= keyword are not modelled")
+    partial_note = ("last_changed/last_updated/last_reported are compared as logical step times (Home Assistant's wall clock is replaced "
+                    "by a per-step logical clock); entity names are lower case; state.persist and the context= keyword are not modelled")
 
     def translate(self, ctx):
         return {"Gen/StateConsts.v": gen_state_consts()}
